@@ -36,7 +36,8 @@ deriving DecidableEq, Repr
 
 inductive Frame where
   | idle
-  | addLoaded (i v : Nat) (d : Bool)   -- Add/Record: delegate loaded (d = it was non-nil), not yet forwarded
+  | addLoaded (i v c : Nat) (d : Bool) -- Add/Record/Start: delegate loaded (d = it was non-nil), not yet forwarded;
+                                       -- c = what the caller's context carries (0 = nothing, j+1 = span j): never read
   | unregTaken (r : Nat) (u : Unreg)   -- Unregister (current code): closure taken, unregMu released
   | oUnregHeld (r : Nat)               -- Unregister (original code): holds unregMu
   | iOnce                              -- SetMeterProvider: inside once.Do, before p.mtx.Lock
@@ -52,7 +53,7 @@ inductive Act where
   | meterNew                 -- Meter(name), new name: Lock p.mtx; delegate == nil; insert; Unlock
   | meterGet                 -- Meter(name), known name or delegate != nil: Lock; lookup / delegate.Meter; Unlock
   | mk (m k : Nat)           -- instrument constructor (kind k of the 14) on placeholder meter m (whole critical section)
-  | addLoad (i v : Nat)      -- Add/Record: `i.delegate.Load()`
+  | addLoad (i v c : Nat)    -- Add/Record/Start(ctx c): `i.delegate.Load()`
   | addFwd                   -- forward to the loaded delegate, or drop
   | reg (m : Nat)            -- RegisterCallback on placeholder meter m (whole critical section)
   | unregTake (r : Nat)      -- Unregister: Lock unregMu; unreg := c.unreg; c.unreg = nil; Unlock
@@ -128,13 +129,13 @@ def step (old : Bool) (s : St) (t : Nat) (a : Act) : Option St :=
                       iKind := upd s.iKind s.nI k,
                       pend := upd s.pend m (s.pend m ++ [s.nI]) }
     else none
-  | .addLoad i v =>
+  | .addLoad i v c =>
     if s.frame t = .idle ∧ i < s.nI then
-      some { s with frame := upd s.frame t (.addLoaded i v (s.iDel i)) }
+      some { s with frame := upd s.frame t (.addLoaded i v c (s.iDel i)) }
     else none
   | .addFwd =>
     match s.frame t with
-    | .addLoaded i v d =>
+    | .addLoaded i v _ d =>
       if d then some { s with frame := upd s.frame t .idle, recorded := (i, v) :: s.recorded }
       else some { s with frame := upd s.frame t .idle, dropped := (i, v) :: s.dropped }
     | _ => none
